@@ -74,16 +74,68 @@ pub struct Live {
     pub cs: Arc<CtlStore>,
     pub ctl: Arc<Ctl>,
     pub fx: Fixture,
+    /// (insert_count, update_count, delete_count) right after the open
+    pub base_counts: (u64, u64, u64),
+}
+
+/// 65 flushed documents (templates 101..165 -> ids 1..65), all index kinds: the first
+/// add published the allocation watermark 1 + 64 = 65, so the next add (id 66) is the
+/// first one that has to publish a new watermark before it may write.
+pub fn preloaded_bulk64() -> &'static Preloaded {
+    static CELL: OnceLock<Preloaded> = OnceLock::new();
+    CELL.get_or_init(|| {
+        install_env();
+        let (cs, _ctl) = CtlStore::new();
+        let model = util::block_on(async {
+            let mut fx = Fixture::open(cs.clone(), Idx::ALL).await.expect("preload open");
+            let mut model = SeqModel::default();
+            let mut ops: Vec<Op> = (1..=65u8).map(|k| Op::Add(100 + k)).collect();
+            ops.push(Op::Flush);
+            for op in ops {
+                let out = fx.exec_any(&op).await;
+                assert!(out.is_ok(), "preload {op:?} failed: {}", out.short());
+                model.apply(&op, &out);
+            }
+            fx.db.close().await.expect("preload close");
+            model
+        });
+        Preloaded { content: ctlstore::snapshot(cs.inner()), model }
+    })
+}
+
+/// Which prepared store image an execution starts from.
+#[derive(Clone, Copy, Debug, PartialEq, Eq, serde::Serialize, serde::Deserialize)]
+pub enum Start {
+    /// two flushed documents
+    Two,
+    /// 65 flushed documents: the next id is the first above the published allocation watermark (Idx::ALL only)
+    Bulk64,
+}
+
+pub fn preloaded_at(idx: Idx, start: Start) -> &'static Preloaded {
+    match start {
+        Start::Two => preloaded(idx),
+        Start::Bulk64 => {
+            assert!(idx == Idx::ALL, "bulk64 start state exists for Idx::ALL only");
+            preloaded_bulk64()
+        }
+    }
 }
 
 /// Opens a fresh database over a copy of the preloaded content (gate off).
 pub fn open_live(idx: Idx) -> Live {
-    let pre = preloaded(idx);
+    open_live_at(idx, Start::Two)
+}
+
+pub fn open_live_at(idx: Idx, start: Start) -> Live {
+    let pre = preloaded_at(idx, start);
     install_env();
     anda_db_utils::verif::set_clock(Some((1_750_000_000_000, 1)));
     let (cs, ctl) = CtlStore::over(ctlstore::restore(&pre.content));
     let fx = util::block_on(Fixture::open(cs.clone(), idx)).expect("open preloaded");
-    Live { cs, ctl, fx }
+    let st = fx.coll.stats();
+    let base_counts = (st.insert_count, st.update_count, st.delete_count);
+    Live { cs, ctl, fx, base_counts }
 }
 
 #[derive(Debug)]
@@ -175,6 +227,14 @@ fn doc_of(op: &Op) -> Option<u64> {
     }
 }
 
+/// Like `doc_of`, but an acknowledged add is a call on the document it created.
+fn doc_of_call(op: &Op, out: &Option<Outcome>) -> Option<u64> {
+    match (op, out) {
+        (Op::Add(_) | Op::AddSparse(_), Some(Outcome::Id(id))) => Some(*id),
+        _ => doc_of(op),
+    }
+}
+
 /// All permutations of 0..n (n <= 4 here).
 fn permutations(n: usize) -> Vec<Vec<usize>> {
     let mut out = Vec::new();
@@ -213,7 +273,7 @@ pub fn linearize(live: &Live, coll: &Collection, idx: Idx, start: &SeqModel, ops
                 let (ia, ib) = (perm[a], perm[b]);
                 if a < b {
                     // ia placed before ib: forbidden if ib finished before ia started and same doc
-                    if let (Some(da), Some(db)) = (doc_of(&ops[ia]), doc_of(&ops[ib]))
+                    if let (Some(da), Some(db)) = (doc_of_call(&ops[ia], &out.outcomes[ia]), doc_of_call(&ops[ib], &out.outcomes[ib]))
                         && da == db
                         && let (Some(sa), Some(sb)) = (out.spans[ia], out.spans[ib])
                         && sb.1 < sa.0
@@ -245,8 +305,23 @@ pub fn linearize(live: &Live, coll: &Collection, idx: Idx, start: &SeqModel, ops
         if ext != model.ext {
             bad.push(format!("extension k = {ext:?}, model {:?}", model.ext));
         }
+        // "counts equal the result of that order": every acknowledged add / update /
+        // remove-that-returned-the-document counts exactly once, nothing else counts
+        let mut want = live.base_counts;
+        for (op, o) in ops.iter().zip(&out.outcomes) {
+            match (op, o) {
+                (Op::Add(_) | Op::AddSparse(_), Some(Outcome::Id(_))) => want.0 += 1,
+                (Op::Update(..), Some(Outcome::Doc(_))) => want.1 += 1,
+                (Op::Remove(_), Some(Outcome::Removed(Some(_)))) => want.2 += 1,
+                _ => {}
+            }
+        }
+        let st = coll.stats();
+        let got = (st.insert_count, st.update_count, st.delete_count);
+        if got != want {
+            bad.push(format!("operation counters (insert, update, delete) = {got:?}, the acknowledged calls give {want:?}"));
+        }
         if bad.is_empty() {
-            let _ = live;
             return Ok(perm);
         }
         if why.len() < 6 {
@@ -358,6 +433,13 @@ pub fn check_flush_snapshot(idx: Idx, start: &SeqModel, ops: &[Op], out: &ExecOu
                         if inside(i)
                             && let Some(o) = &out.outcomes[i]
                         {
+                            // a set that holds an acknowledged update without the add that
+                            // created its document is not a state of the accepted order
+                            if let (Op::Update(id, _), Outcome::Doc(_)) = (&ops[i], o)
+                                && !m.docs.docs.contains_key(id)
+                            {
+                                continue 'sets;
+                            }
                             m.apply(&ops[i], o);
                         }
                     }
